@@ -98,7 +98,7 @@ def handle(run, results, build, what='entries differ from the oracle'):
             if not fbad:
                 run.harness_error('sat obligations %s of %s %s did not reproduce in the exact-rational replay' % (fam, res['group'], cfg))
                 continue
-            key = '%s/%s/%s' % (res['group'], cfg['variant'], fam)
+            key = '%s/%s/%s' % (res['group'], cfg.get('variant', cfg.get('rel', '-')), fam)
             if (fam + '~known') in fams:
                 key += '/differs-from-recorded-finding'
             run.violation(key, ('%s m=%d n=%d: %d ' + what + ', e.g. %s impl=%.6g oracle=%.6g') % (
